@@ -430,6 +430,34 @@ example (x : ℕ → ℝ) :=
   uv_is_monomial triG x [0, 1, 2] (by decide) (by decide) (by decide) (by rw [← tri_edges]; exact tri_full) 0 1
     (by decide) (by decide) (by decide)
 
+/-- **C07 on the model's own table, in one statement.** `T` carries the flags of `preEntry G D` (what `generate_from_tropical` stores), the
+whole graph is mass-momentum spanning, the run of `permatuhedral_sampling` succeeds with uniform numbers in `(0,1]` and positive `ω`'s. With `x`
+the pre-rescaling Feynman parameters: (1) every cotree monomial is `≤ u_trop` and `u_trop` is one; (2) every mass term and (3) every momentum
+term of `F` is `≤ u_trop · v_trop`. (`uv_is_monomial` adds that `u_trop · v_trop` is one of them when two different externals exist.) -/
+theorem tropical_values_bound_all_monomials (T : STable ℝ) (G : TGraph ℝ) (D : Nat) (hn : T.numEdges = G.topology.length)
+    (hnm : G.numMassive = ((List.range G.topology.length).filter (isMassive G.topology)).length)
+    (hl : ∀ m, m < 2 ^ T.numEdges → T.loops m = (preEntry G D m).2.1)
+    (hs : ∀ m, m < 2 ^ T.numEdges → T.mms m = (preEntry G D m).1)
+    (hspan : T.mms (Mask.full T.numEdges) = true)
+    (xs : List ℝ) (r : PermResult ℝ) (h : permutahedral T xs = some r)
+    (hpos : ∀ s ∈ permTrace T xs T.numEdges (Mask.full T.numEdges) 0, ∀ xi, s.xi = some xi → 0 < xi ∧ xi ≤ 1 ∧ 0 < T.omega s.rest) :
+    let x : ℕ → ℝ := fun e => r.xPre.getD e 0
+    let S := Finset.range T.numEdges
+    ((∀ C, Cotree (loopsOf G.topology) S C → ∏ e ∈ C, x e ≤ r.uTrPre) ∧
+        ∃ C, Cotree (loopsOf G.topology) S C ∧ ∏ e ∈ C, x e = r.uTrPre) ∧
+      (∀ C, Cotree (loopsOf G.topology) S C → ∀ e0, e0 < T.numEdges → isMassive G.topology e0 = true →
+        x e0 * ∏ e ∈ C, x e ≤ r.uTrPre * r.vTrPre) ∧
+      (∀ C, C ⊆ S → loopsOf G.topology (S \ C) = 0 → C.card = loopsOf G.topology S + 1 → Split G.topology G.externals (S \ C) →
+        ∏ e ∈ C, x e ≤ r.uTrPre * r.vTrPre) := by
+  intro x S
+  obtain ⟨hm, hL, hM⟩ := premises_of_preEntry T G D hn hnm hl hs
+  refine ⟨uTrop_is_largest_monomial T G.topology hL xs r h hpos, ?_, ?_⟩
+  · intro C hC e0 he0 hmass
+    exact mass_terms_le T G.topology (mmOf G) hm hL hM hspan xs r h hpos C hC e0 he0
+      (fun A hA => mmOf_contains_massive G hnm e0 (hn ▸ he0) hmass A hA)
+  · intro C hCS hz hcard hsplit
+    exact momentum_terms_le T G.topology G.externals (mmOf G) hm (fun A hA => mmOf_conn G A hA) hn hL hM hspan xs r h hpos C hCS hz hcard hsplit
+
 end model3
 
 end Momtrop.C07
